@@ -63,6 +63,7 @@ def sameRes (m i : Obs) : Bool := m == i
 
 structure Acc where
   s        : State
+  reqs     : List ReqId := []
   mon      : Mon := {}
   drain    : Bool := false
   diverged : Bool := false
@@ -75,7 +76,12 @@ def stepCase (cfg : Config) (a : Acc) (op : Op) (io : IObs) : Acc :=
   let (mon, v) := monStep cfg a.mon op io
   let a := { a with mon := mon, cls := a.cls <|> v }
   let a := if op == .mark then { a with drain := true } else a
+  let a := match op with | .issue r _ _ => { a with reqs := if a.reqs.contains r then a.reqs else r :: a.reqs } | _ => a
   if a.diverged then a else
+  -- quiescent progress, evaluated on the implementation's answer in the model's (so far agreeing) state
+  let a := match op with
+    | .poll r => if strandedAt a.s r io.res then { a with cls := a.cls <|> some "C03/stranded" } else a
+    | _ => a
   let (s', mres) := step a.s op
   let mo := snapshot s' mres
   let same := sameRes mo.res io.res && sameState mo io
